@@ -33,6 +33,9 @@ Qed.
 Definition cannot_fail (p : prim) : bool :=
   match p with PBasic _ _ | PFixed _ _ _ => true | _ => false end.
 
+Definition field_is_ptr (gs : list gotype) (i : nat) (t : N) : bool :=
+  match nth_error gs i with Some (GPtr t0) => t0 =? t | _ => false end.
+
 (* the statements of one field, Encode and Decode side by side *)
 Definition infer_field (gs : list gotype) (i : nat) (es : list estmt) (ds : list dstmt)
   : option (kind * list estmt * list dstmt) :=
@@ -45,13 +48,13 @@ Definition infer_field (gs : list gotype) (i : nat) (es : list estmt) (ds : list
         end
       else None
   | EFillNew j t :: ECall j' GNone prop :: es', DEnsure k t' :: DCall k' :: ds' =>
-      if Nat.eqb j i && Nat.eqb j' i && Nat.eqb k i && Nat.eqb k' i && (t =? t')
+      if Nat.eqb j i && Nat.eqb j' i && Nat.eqb k i && Nat.eqb k' i && (t =? t') && field_is_ptr gs i t'
       then Some (KCall (FNew t) GNone prop (DPtr t'), es', ds') else None
   | EFill j tbl key :: ECall j' GNone prop :: es', DLookup tbl' key' k :: DCall k' :: ds' =>
       if Nat.eqb j i && Nat.eqb j' i && Nat.eqb k i && Nat.eqb k' i && Nat.ltb key i && Nat.ltb key' i
       then Some (KCall (FTable tbl key) GNone prop (DSel tbl' key'), es', ds') else None
   | ECall j g prop :: es', DEnsure k t :: DCall k' :: ds' =>
-      if Nat.eqb j i && Nat.eqb k i && Nat.eqb k' i
+      if Nat.eqb j i && Nat.eqb k i && Nat.eqb k' i && field_is_ptr gs i t
       then Some (KCall FNone g prop (DPtr t), es', ds') else None
   | ECall j g prop :: es', DLookup tbl key k :: DCall k' :: ds' =>
       if Nat.eqb j i && Nat.eqb k i && Nat.eqb k' i && Nat.ltb key i
